@@ -190,6 +190,7 @@ func runHist(cfg *stores.Cfg, u *univ.Universe, hi int, h []drv.Op, lg *gate.Log
 	if sys.ReadOnly {
 		// read-only unions are pre-populated, with overlaps between the subsets
 		i := 0
+		seen := map[int]bool{}
 		for _, name := range sortedGateNames(sys) {
 			g := sys.Gates[name]
 			for j, b := range u.Blobs {
@@ -199,10 +200,28 @@ func runHist(cfg *stores.Cfg, u *univ.Universe, hi int, h []drv.Op, lg *gate.Log
 			}
 			i++
 		}
-		seen := map[int]bool{}
 		for _, name := range sortedGateNames(sys) {
 			for _, br := range sys.Gates[name].B.Refs() {
 				seen[u.RankOf(br)] = true
+			}
+		}
+		// subsets that are real stores (localdisk, ...) are filled through their own ReceiveBlob
+		for k := 0; ; k++ {
+			name := fmt.Sprintf("r/%d", k)
+			node, ok := sys.Nodes[name]
+			if !ok {
+				break
+			}
+			if _, isGate := sys.Gates[name]; isGate {
+				continue
+			}
+			for j, b := range u.Blobs {
+				if (j+k)%2 == 0 || j == 0 {
+					if _, err := blobserver.Receive(context.Background(), node, b.Ref, bytes.NewReader(b.Data)); err != nil {
+						return fmt.Errorf("pre-populating %s of %s: %v", name, cfg, err)
+					}
+					seen[b.Rank] = true
+				}
 			}
 		}
 		for _, b := range u.Blobs {
